@@ -81,7 +81,7 @@ def plan(tier):
 
     pl.label_filter = lf
     pl.static = [static_funnel, lambda: lexfacts.obligations_L1(PID), lambda: lexfacts.obligations_ascii(PID),
-                 lambda: lexfacts.obligations_structure(PID)]
+                 lambda: lexfacts.obligations_structure(PID), lambda: lexfacts.obligations_no_nested_repeat(PID)]
     pl.bounded = [bounded_tokens, bounded_generated, bounded_bytes]
     pl.functions = common.ARG_FUNCTIONS + [("sievelib.commands", "get_command_instance"), ("sievelib.commands", "RequireCommand.complete_cb"),
                                            ("sievelib.parser", "Parser.parse"), ("sievelib.parser", "Lexer.scan")]
